@@ -1545,10 +1545,12 @@ fn c19_world(t: &mut Tape, forced: Option<(usize, bool)>) -> RunOut {
                     "Signature" => "f".repeat(64),
                     _ => "host;x-bogus".to_string(),
                 };
-                let look = match t.below(4) {
+                let look = match t.below(5) {
                     0 => format!("\u{a0}{}", name),
                     1 => format!("\u{85}{}", name),
                     2 => name.to_lowercase(),
+                    // a blank between the name and the equal-sign belongs to the name
+                    3 => format!("{} ", name),
                     _ => format!("{}\u{a0}", name),
                 };
                 m.quirks.dup_header_params.push((look, bogus, before));
@@ -2243,7 +2245,7 @@ pub fn registry() -> Vec<Profile> {
             title: "repeated authentication inputs",
             run: run_c19,
             required: &["dup_accepted", "dup_refused", "both_carriers_refused", "provider_saw_selected_identity"],
-            rule: "duplication faults on authentication inputs: a second Authorization header (before/after), a repeated Credential/Signature/SignedHeaders inside it, repeated X-Amz-* query parameters (6 names), two X-Amz-Date headers, Date beside X-Amz-Date (either is the real one), two token headers, both carriers at once; values differ and exactly one selection makes the reference signature valid; the documented selection table and the reference verdict from the bytes must agree before the library is judged; non-trivial always (a duplication fault fired); distinct by shape hash. Duplicates may be empty (empty first Authorization / X-Amz-Date / token header, empty last Credential= / Signature= / SignedHeaders=), the parameter list may contain empty elements, look-alike parameter names (NBSP/NEL byte in front, other letter case) are unknown parameters, and the Date header may be signed while X-Amz-Date is not.",
+            rule: "duplication faults on authentication inputs: a second Authorization header (before/after), a repeated Credential/Signature/SignedHeaders inside it, repeated X-Amz-* query parameters (6 names), two X-Amz-Date headers, Date beside X-Amz-Date (either is the real one), two token headers, both carriers at once; values differ and exactly one selection makes the reference signature valid; the documented selection table and the reference verdict from the bytes must agree before the library is judged; non-trivial always (a duplication fault fired); distinct by shape hash. Duplicates may be empty (empty first Authorization / X-Amz-Date / token header, empty last Credential= / Signature= / SignedHeaders=), the parameter list may contain empty elements, look-alike parameter names (NBSP/NEL byte in front, other letter case, a blank before the equal-sign) are unknown parameters, and the Date header may be signed while X-Amz-Date is not.",
             quick_runs: 200000,
             thorough_runs: 2400000,
             real: REAL_COMMON,
